@@ -856,6 +856,11 @@ class VM:
         if cs:
             if len(cs) > 1: raise Unmodelled(f'const item {segs[-1]} is defined {len(cs)} times (ambiguous by last segment)')
             return self.run_fn(cs[0], [], {})
+        # `repeat_with(f)` with a fn item folded into a constant: RepeatWith::<F> {{ repeater: f }}
+        m = re.match(r'^(?:\w+::)*RepeatWith::<.*> \{\{ repeater: (.*) \}\}$', cc)
+        if m:
+            from .std_iter import It as _It
+            return _It('repeat_with', FnItem(self.subst_text(canon(m.group(1)), fr), fr.subst))
         # function item as constant
         if re.match(r'[\w<{]', cc): return FnItem(self.subst_text(cc, fr), fr.subst)
         raise Unmodelled('const? ' + c)
